@@ -28,8 +28,10 @@ import (
 
 // EnvAction is one environment action, performed when the trace has reached `At` events (or the system is idle)
 type EnvAction struct {
-	At int64  `json:"at"`
-	Do string `json:"do"` // feed | stop | steal | usr1
+	At    int64  `json:"at"`
+	Do    string `json:"do"`    // feed | stop | steal | usr1
+	After string `json:"after"` // wait until the trace has Nth events of this name (then At / idle as usual)
+	Nth   int    `json:"nth"`
 }
 
 // Script is the environment's half of a behaviour
@@ -105,6 +107,12 @@ func (c *fakeConn) waitClosedOr(deadline time.Time) {
 
 func (c *fakeConn) SendChunk(chunk base.LogChunk, deadline time.Time) error {
 	tr := c.r.tr
+	slowReturn := false
+	defer func() {
+		if slowReturn {
+			time.Sleep(3 * time.Millisecond)
+		}
+	}()
 	if c.isClosed() {
 		tr.Emit("SendEnd", "id", chunk.ID, "out", "err", "conn", c.no, "got", false)
 		return errors.New("closed")
@@ -128,6 +136,10 @@ func (c *fakeConn) SendChunk(chunk base.LogChunk, deadline time.Time) error {
 		c.waitClosedOr(deadline)
 		tr.Emit("SendEnd", "id", chunk.ID, "out", "err", "conn", c.no, "got", false)
 		return errors.New("send timeout")
+	case "slowret":
+		// the write succeeds at once (logged at that point) but the call returns to the client a few milliseconds later:
+		// whatever happens meanwhile (a stop request, an abort of the connection) finds the chunk already sent
+		slowReturn = true
 	}
 	c.mu.Lock()
 	defer c.mu.Unlock()
@@ -286,6 +298,20 @@ func RunScript(sc Script) (*vtrace.Tracer, bool) {
 	idle := 12 * time.Millisecond
 	for _, a := range sc.Env {
 		deadline := time.Now().Add(2 * time.Second)
+		if a.After != "" {
+			for time.Now().Before(deadline) {
+				n := 0
+				for _, e := range tr.Events() {
+					if e["ev"] == a.After {
+						n++
+					}
+				}
+				if n >= a.Nth {
+					break
+				}
+				time.Sleep(100 * time.Microsecond)
+			}
+		}
 		for tr.Seq() < a.At && tr.IdleFor() < idle && time.Now().Before(deadline) {
 			time.Sleep(200 * time.Microsecond)
 		}
